@@ -1,11 +1,12 @@
 SPECIFICATION Spec
 CONSTANTS
  BugDupChecks = FALSE  BugIterEmpty = FALSE  BugAppendTotal = FALSE
- NSlots = 1  MaxStreams = 12  MaxRecs = 9000
+ NSlots = 1  MaxStreams = 12  MaxRecs = 20000
  USizes <- OneU  VSizes <- TinyV  Pads <- NoValues  FlagSet <- NoValues
  CommonU <- NoValues  CommonV <- NoValues
  FamStreams <- FamStreamsT  FamBase = 3  FamGroups <- FamGroupsT
  ParkA <- ParkAT  ParkB <- ParkBT
+ EncN <- EncNQ
  Volume = FALSE
  MinSteps = 1  MaxSteps = 2
 VIEW View
